@@ -186,6 +186,13 @@ contains
     call ier_out(ier); call nl()
   end subroutine
 
+  subroutine op_state_size()
+    integer :: sz, ier
+    sz = -1
+    call cg_state_size_f(sz, ier)
+    call ier_out(ier); if (ier == 0) call kv('size', int(sz, 8)); call nl()
+  end subroutine
+
   subroutine op_state_read()
     type(fout) :: o
     integer :: ier
